@@ -65,7 +65,7 @@ def run(d, props):
     finally:
         sh("git checkout -- . && git clean -fdq netqasm", cwd=REPO)
         # evidence written while a seeded change was applied must not be kept
-        sh("git checkout -- evidence", cwd=VERIF)
+        sh("git checkout -- evidence lean/NetqasmVerif/Gen", cwd=VERIF)
     return res
 
 
